@@ -90,7 +90,10 @@ def model_d():
         K('S', 'J1'): op('+', ['name', B, 'GROSS'], num(1)),
         K('S', 'J2'): op('*', cell('S', 'A1'), num(3)),
     }
-    return {'cells': cells, 'arrays': {}, 'names': {'%s|BLOCK_TOTAL' % B: cell('S', 'E1'), '%s|GROSS' % B: op('*', cell('S', 'A1'), num(2))}, 'sheets': [[B, 'S']]}
+    cells[K('S', 'J3')] = op('+', fn('SUM', ['name', B, 'COLPAIR']), ['name', B, 'KONST'])
+    return {'cells': cells, 'arrays': {}, 'names': {'%s|BLOCK_TOTAL' % B: cell('S', 'E1'), '%s|GROSS' % B: op('*', cell('S', 'A1'), num(2)),
+                                                    # a name for a range (a second level of indirection) and a name for a constant
+                                                    '%s|COLPAIR' % B: rng('S', 'A1:A2'), '%s|KONST' % B: num(2)}, 'sheets': [[B, 'S']]}
 
 
 MODELS = {'a': model_a, 'b': model_b, 'c': model_c, 'd': model_d}
